@@ -279,6 +279,8 @@ def _new_worker(log):
     w.incoming_thread = None
     for name in c14.WORKER_EXTRA_ATTRS & c14._worker_init_attrs():
         setattr(w, name, threading.Lock())
+    from harness import runtime_sim as _rs
+    _rs.autofill(w, [(Worker, ('__init__',))])
     return w
 
 
